@@ -6,14 +6,16 @@ from cv.rules import events_of
 from props import common
 
 TITLE = "Work already stored is never stored again"
-TECHNIQUE = 'static analysis: guard analysis (dedup before write), effect-free region after the unchanged guard, provenance of the basis choice'
+TECHNIQUE = 'static analysis: guard analysis (dedup before write), effect-free region after the unchanged guard, provenance of the basis choice, ordering table of the basis/source merge'
 EXPLANATION = (
     "Decided: (1) a block file is written only when the present set says the hash is absent, and the present set "
     "is initialised from a listing of the block directory when it is opened (which is what lets a resumed run skip "
     "blocks the interrupted run stored); (2) on the unchanged path of copy_file (heuristic true and all blocks "
     "present) nothing opens the source file, stores content or writes to the archive, and the recorded addresses "
     "are the basis entry's; (3) the basis of a backup is the NEWEST band (last_band_id), complete or not, read "
-    "through the stitcher, so a resumed run reuses the interrupted run's entries."
+    "through the stitcher, so a resumed run reuses the interrupted run's entries; (4) the merge that pairs each "
+    "source entry with its basis entry aligns the two streams by Apath::cmp and emits Both only on Equal, which is "
+    "the precondition of any reuse (a mis-paired unchanged file would be stored again)."
 )
 UNDECIDED = ["'each distinct content written at most once in any history' (needs the history; concurrent writers excluded)",
              "counts of block writes for particular trees"]
@@ -126,3 +128,6 @@ def run(ck, w):
         else:
             ck.ok(o, sites=[sn[0].site()])
     common.reuse_exactly_conditioned(ck, w, "C14.2d")
+    # ---- 4. a source entry meets ITS basis entry ----------------------------------------------------------
+    # copy_file can only reuse what the merge pairs: a mis-aligned merge presents unchanged files as new
+    common.merge_alignment(ck, w, "C14.4a", "C14.4b")
